@@ -315,6 +315,16 @@ class MarkdownNormalizer(Renderer):
         yield
         self._prefix, self._second_prefix = old_prefix, old_second_prefix
 
+    def _strip_trailing_blank_line(self, rendered: str) -> str:
+        """
+        Remove a trailing blank line that carries only the current container prefix
+        (the `>` line a heading leaves at the end of a quote).
+        """
+        blank_line = "\n" + self._second_prefix.rstrip()
+        if blank_line.strip() and rendered.endswith(blank_line):
+            rendered = rendered[: -len(blank_line)]
+        return rendered
+
     def _can_be_tight(self, element: block.List) -> bool:
         """
         Check if a list can be rendered tight.
@@ -428,6 +438,7 @@ class MarkdownNormalizer(Renderer):
 
         with self.container("> ", "> "):
             result = self.render_children(element).rstrip("\n")
+            result = self._strip_trailing_blank_line(result)
         self._prefix = self._second_prefix
         # A heading at the end of the quote has had its blank line stripped just above, so the
         # blank line that follows the quote must not be skipped (it separates it from a next quote).
@@ -520,7 +531,10 @@ class MarkdownNormalizer(Renderer):
             # Don't skip next blank line or suppress item break for hard breaks
             return result
         else:
-            result = f"{self._prefix}{'#' * element.level} {children_content}\n\n"
+            # The blank line after the heading carries the container prefix (`>` inside a
+            # quote); a bare blank line would end the quote there.
+            blank_line = self._second_prefix.rstrip()
+            result = f"{self._prefix}{'#' * element.level} {children_content}\n{blank_line}\n"
             self._prefix = self._second_prefix
             # Skip the next blank line since we already added one
             self._skip_next_blank_line = True
@@ -751,6 +765,7 @@ class MarkdownNormalizer(Renderer):
 
         with self.container("> ", "> "):
             result = self.render_children(element).rstrip("\n")
+            result = self._strip_trailing_blank_line(result)
 
         self._prefix = self._second_prefix
         self._skip_next_blank_line = False
